@@ -42,6 +42,8 @@ fn mac_digit(acc: &mut [BigDigit], b: &[BigDigit], c: BigDigit) {
 
     let mut carry = 0;
     let (a_lo, a_hi) = acc.split_at_mut(b.len());
+    #[cfg(num_bigint_verif)]
+    crate::verif_probe::add(crate::verif_probe::Probe::MAC_DIGIT_WORK, (b.len()) as u64);
 
     for (a, &b) in a_lo.iter_mut().zip(b) {
         *a = mac_with_carry(*a, b, c, &mut carry);
@@ -68,6 +70,8 @@ fn mac3(mut acc: &mut [BigDigit], mut b: &[BigDigit], mut c: &[BigDigit]) {
     // Least-significant zeros have no effect on the output.
     if let Some(&0) = b.first() {
         if let Some(nz) = b.iter().position(|&d| d != 0) {
+            #[cfg(num_bigint_verif)]
+            crate::verif_probe::hit(crate::verif_probe::Probe::MAC3_STRIP);
             b = &b[nz..];
             acc = &mut acc[nz..];
         } else {
@@ -76,6 +80,8 @@ fn mac3(mut acc: &mut [BigDigit], mut b: &[BigDigit], mut c: &[BigDigit]) {
     }
     if let Some(&0) = c.first() {
         if let Some(nz) = c.iter().position(|&d| d != 0) {
+            #[cfg(num_bigint_verif)]
+            crate::verif_probe::hit(crate::verif_probe::Probe::MAC3_STRIP);
             c = &c[nz..];
             acc = &mut acc[nz..];
         } else {
@@ -100,6 +106,8 @@ fn mac3(mut acc: &mut [BigDigit], mut b: &[BigDigit], mut c: &[BigDigit]) {
 
     if x.len() <= 32 {
         // Long multiplication:
+        #[cfg(num_bigint_verif)]
+        crate::verif_probe::hit(crate::verif_probe::Probe::MAC3_LONG);
         for (i, xi) in x.iter().enumerate() {
             mac_digit(&mut acc[i..], y, *xi);
         }
@@ -156,6 +164,8 @@ fn mac3(mut acc: &mut [BigDigit], mut b: &[BigDigit], mut c: &[BigDigit]) {
         //            = ((z1 - z0) * NBASE ^ m2) + z0
         //            = ((z1 - z0) * NBASE ^ m2) + z0
         //            = (x * high2) * NBASE ^ m2 + z0
+        #[cfg(num_bigint_verif)]
+        crate::verif_probe::hit(crate::verif_probe::Probe::MAC3_HALF);
         let m2 = y.len() / 2;
         let (low2, high2) = y.split_at(m2);
 
@@ -226,6 +236,8 @@ fn mac3(mut acc: &mut [BigDigit], mut b: &[BigDigit], mut c: &[BigDigit]) {
 
         // When x is smaller than y, it's significantly faster to pick b such that x is split in
         // half, not y:
+        #[cfg(num_bigint_verif)]
+        crate::verif_probe::hit(crate::verif_probe::Probe::MAC3_KARA);
         let b = x.len() / 2;
         let (x0, x1) = x.split_at(b);
         let (y0, y1) = y.split_at(b);
@@ -262,6 +274,8 @@ fn mac3(mut acc: &mut [BigDigit], mut b: &[BigDigit], mut c: &[BigDigit]) {
 
         match j0_sign * j1_sign {
             Plus => {
+                #[cfg(num_bigint_verif)]
+                crate::verif_probe::hit(crate::verif_probe::Probe::MAC3_KARA_PLUS);
                 p.data.truncate(0);
                 p.data.resize(len, 0);
 
@@ -272,10 +286,14 @@ fn mac3(mut acc: &mut [BigDigit], mut b: &[BigDigit], mut c: &[BigDigit]) {
             }
             Minus => {
                 mac3(&mut acc[b..], &j0.data, &j1.data);
+                #[cfg(num_bigint_verif)]
+                crate::verif_probe::hit(crate::verif_probe::Probe::MAC3_KARA_MINUS);
             }
             NoSign => (),
         }
     } else {
+        #[cfg(num_bigint_verif)]
+        crate::verif_probe::hit(crate::verif_probe::Probe::MAC3_TOOM3);
         // Toom-3 multiplication:
         //
         // Toom-3 is like Karatsuba above, but dividing the inputs into three parts.
@@ -421,6 +439,8 @@ fn scalar_mul(a: &mut BigUint, b: BigDigit) {
         1 => {}
         _ => {
             if b.is_power_of_two() {
+                #[cfg(num_bigint_verif)]
+                crate::verif_probe::hit(crate::verif_probe::Probe::SCALAR_MUL_POW2);
                 *a <<= b.trailing_zeros();
             } else {
                 let mut carry = 0;
